@@ -88,6 +88,10 @@ func init() {
 				if i%13 == 0 {
 					a = map[string]any{}
 				}
+				if i%6 == 5 {
+					a, b = gen.DeepChainPair(c.R, prof, true)
+					c.Feature("deep_chain_pairs")
+				}
 				c11Case(c, ref.ToJSON(a), ref.ToJSON(b), o)
 			},
 		})
